@@ -177,6 +177,9 @@ func tfSchema() *schema.BodySchema {
 						"value": {IsRequired: true, Constraint: schema.AnyExpression{OfType: cty.DynamicPseudoType}},
 						// a dependency key in a body that declares Targets: its value also yields a direct origin
 						"dep": {IsOptional: true, IsDepKey: true, Constraint: schema.Reference{OfScopeId: "variable"}},
+						// references that declare what they name (a traversal written here IS a declaration)
+						"decl":  {IsOptional: true, Constraint: schema.Reference{Address: &schema.ReferenceAddrSchema{ScopeId: "mark"}}},
+						"decls": {IsOptional: true, Constraint: schema.List{Elem: schema.Reference{Address: &schema.ReferenceAddrSchema{ScopeId: "mark"}}}},
 					},
 					Targets: &schema.Target{Path: lang.Path{Path: "other", LanguageID: "hcl"}, Range: hcl.Range{Filename: callerSupplied, Start: hcl.InitialPos, End: hcl.InitialPos}},
 				},
